@@ -15,6 +15,10 @@ import Driver.C16Lin
 import Driver.C16Mon
 import Driver.C17
 import Driver.C17Mon
+import Driver.C18
+import Driver.C18Mon
+import Driver.C19
+import Driver.C19Mon
 import Driver.C20
 import Driver.C20Mon
 
@@ -35,6 +39,10 @@ def suites : List (String × Driver.Suite) :=
   Driver.C16Mon.suites ++
   Driver.C17.suites ++
   Driver.C17Mon.suites ++
+  Driver.C18.suites ++
+  Driver.C18Mon.suites ++
+  Driver.C19.suites ++
+  Driver.C19Mon.suites ++
   Driver.C20.suites ++
   Driver.C20Mon.suites
 
